@@ -383,6 +383,23 @@ def set_case(draw, tier):
     return {"objects": objs, "share_c_sys": draw(st.booleans())}
 
 
+@st.composite
+def set_history_case(draw, tier):
+    base = draw(set_case(tier))
+    steps = []
+    for _ in range(draw(st.integers(1, 3))):
+        t = draw(st.sampled_from(TYPES))
+        k = draw(st.sampled_from([0, 1, 1, 2, 3]))
+        objs = []
+        for _ in range(k):
+            cfg = draw(cfg_st(tier, small=True, types=(t,)))
+            L, nv = _lens(cfg)
+            objs.append({"cfg": cfg, "stacked_fill": draw(fill_st(L)), "new_var_fill": draw(fill_st(nv))})
+        steps.append({"mode": t, "objects": objs, "via": draw(st.sampled_from(["setter", "setter", "inplace"]))})
+    base["steps"] = steps
+    return base
+
+
 # ============================================================================= facet 1: object -> var -> object
 def check_obj_var_obj(case, ctx):
     cfg = case["cfg"]
@@ -778,30 +795,99 @@ def check_index_maps(case, ctx):
 MODE_KEY = {"state": "states", "gate": "gates", "povm": "povms", "mprocess": "mprocesses"}
 
 
-def check_set_qoperations(case, ctx):
-    from quara.objects.qoperations import SetQOperations
+class _Tagged:
+    """ctx proxy that appends a tag to every oracle id (so evidence and findings tell the phases of a history apart)."""
 
-    specs = case["objects"]
-    shared = {}
-    groups = {t: [] for t in TYPES}  # mode -> list of (cfg, x, object)
+    def __init__(self, ctx, tag):
+        self._c, self._t = ctx, tag
+
+    def check(self, cond, oracle, *a, **k):
+        return self._c.check(cond, oracle + self._t, *a, **k)
+
+    def equal(self, a_, b_, oracle, *a, **k):
+        return self._c.equal(a_, b_, oracle + self._t, *a, **k)
+
+    def close(self, a_, b_, tol, oracle, *a, **k):
+        return self._c.close(a_, b_, tol, oracle + self._t, *a, **k)
+
+    def raises(self, exc, fn, oracle, *a, **k):
+        return self._c.raises(exc, fn, oracle + self._t, *a, **k)
+
+    def __getattr__(self, name):
+        return getattr(self._c, name)
+
+
+def _build_groups(specs, share, shared=None):
+    shared = {} if shared is None else shared
+    groups = {t: [] for t in TYPES}  # mode -> list of (cfg, x, object, spec)
     for sp in specs:
         cfg = sp["cfg"]
         d, n = dims_of(cfg)
         L, nv = _lens(cfg)
         x = fill_values(sp["stacked_fill"], L, d)
-        if case.get("share_c_sys"):
+        if share:
             c_sys = shared.setdefault(cfg["shape"], c_sys_cached(cfg["shape"]))
         else:
             c_sys = build.c_sys_for(cfg["shape"])
         groups[cfg["type"]].append((cfg, x, make_obj(cfg, x, c_sys=c_sys), sp))
+    return groups
+
+
+def check_set_qoperations(case, ctx):
+    from quara.objects.qoperations import SetQOperations
+
+    groups = _build_groups(case["objects"], case.get("share_c_sys"))
     sq = SetQOperations(**{MODE_KEY[t]: [g[2] for g in groups[t]] for t in TYPES})
+    _verify_set(ctx, sq, groups)
+
+
+def check_set_history(case, ctx):
+    """history: one SetQOperations object is queried, then changed through its list setters (or by in-place edits of the
+    lists it returns), then queried again - every index map must describe the CURRENT contents."""
+    from quara.objects.qoperations import SetQOperations
+
+    shared = {}
+    groups = _build_groups(case["objects"], case.get("share_c_sys"), shared)
+    sq = SetQOperations(**{MODE_KEY[t]: [g[2] for g in groups[t]] for t in TYPES})
+    ctx._history = True
+    _verify_set(ctx, sq, groups)
+    changed = False
+    for k, stp in enumerate(case["steps"]):
+        t = stp["mode"]
+        new_groups = _build_groups(stp["objects"], case.get("share_c_sys"), shared)
+        new_list = new_groups[t]
+        if stp["via"] == "inplace" and len(new_list) == len(groups[t]) and len(new_list) > 0:
+            lst = getattr(sq, MODE_KEY[t])
+            for j, g in enumerate(new_list):
+                lst[j] = g[2]
+            ctx.label("mutation:inplace")
+        else:
+            setattr(sq, MODE_KEY[t], [g[2] for g in new_list])
+            ctx.label("mutation:setter")
+        old_sizes = [g[1][free_positions(t, dims_of(g[0])[1], g[0].get("m"), g[0]["flag"])].size for g in groups[t]]
+        new_sizes = [g[1][free_positions(t, dims_of(g[0])[1], g[0].get("m"), g[0]["flag"])].size for g in new_list]
+        if old_sizes != new_sizes:
+            changed = True
+            ctx.label("mutation:block-size-changed")
+        groups[t] = new_list
+        _verify_set(ctx, sq, groups, tag=f":after_mutation")
+    ctx.nontrivial(changed)
+
+
+def _verify_set(ctx, sq, groups, tag=""):
+    from quara.objects.qoperations import SetQOperations
+
+    specs = [g[3] for t in TYPES for g in groups[t]]
     types_present = [t for t in TYPES if groups[t]]
+    if tag:
+        ctx = _Tagged(ctx, tag)
     ctx.label(f"types:{len(types_present)}", f"objects:{len(specs)}",
               "flags:" + ("mixed" if len({sp['cfg']['flag'] for sp in specs}) == 2 else "uniform"),
               "dims:" + ("mixed" if len({sp['cfg']['shape'] for sp in specs}) >= 2 else "uniform"))
     for t in types_present:
         ctx.label("has:" + t)
-    ctx.nontrivial(len(types_present) >= 2)
+    if not tag and not getattr(ctx, "_history", False):
+        ctx.nontrivial(len(types_present) >= 2)
 
     # reference: the set of (mode, object, local index) and the value each one names
     ref = {}
@@ -911,6 +997,13 @@ def check_set_qoperations(case, ctx):
 # ============================================================================= facets
 _NT = "m >= 3 or on_para_eq_constraint=True"
 FACETS = {
+    "set_qoperations_history": {
+        "strategy": set_history_case,
+        "check": check_set_history,
+        "budget": {"quick": {"examples": 320, "shards": 8}, "thorough": {"examples": 6000, "shards": 16}},
+        "nontrivial": "a mutation (setter or in-place list edit) that changes the size of a type's variable block, followed by index queries on the same set object",
+        "min_nontrivial": 40,
+    },
     "obj_var_obj": {
         "strategy": obj_var_obj_case,
         "check": check_obj_var_obj,
